@@ -43,7 +43,7 @@ class Directive:
 
 
 SUB = ("@ret", "@requires", "@ensures", "@closure", "@loop", "@prefix", "@insert_before", "@recommends",
-       "@decreases", "@nested", "@attr", "@closure_types", "@generics", "@replace", "@loop_begin", "@loop_end")
+       "@decreases", "@nested", "@attr", "@closure_types", "@generics", "@replace", "@loop_begin", "@loop_end", "@adapter")
 
 
 def parse_spec(path: str):
@@ -173,13 +173,15 @@ class Source:
     def method(self, owner: str, name: str) -> Tuple[rs.Item, rs.Item]:
         """owner: 'Type' (inherent impl) or 'Trait for Type'"""
         own = owner.replace(" ", "")
+        own_base = re.sub(r"<[^<>]*>", "", re.sub(r"<[^<>]*>", "", own))
         found = []
         for imp in self.items:
             if imp.kind != "impl" or imp.cfg_test: continue
             hdr = imp.name.replace(" ", "")
             # strip generic args from header for comparison
             base = re.sub(r"<[^<>]*>", "", re.sub(r"<[^<>]*>", "", hdr))
-            if base != own: continue
+            if base != own and hdr != own and base != own_base: continue
+            if own != own_base and hdr != own: continue   # generic arguments given: require an exact header match
             # body items
             bo = imp.kw
             while self.st[bo].text != "{": bo += 1
@@ -398,6 +400,8 @@ class Gen:
             derives |= set(x.strip() for x in m.group(1).split(","))
         n = d.name
         gen = []
+        if d.opts.get("derive") is not None:
+            derives = set(d.opts["derive"].split())
         # generics: `struct X<T = Empty>` -> impl<T> .. for X<T>
         gp, ga = "", ""
         if st[it.kw + 2].text == "<":
@@ -421,7 +425,7 @@ class Gen:
                 names.append((txt[0], " ".join(txt)))
             gp = "<" + ", ".join(t for _, t in names) + ">"
             ga = "<" + ", ".join(nm for nm, _ in names) + ">"
-        if d.opts.get("noderive") is None:
+        if d.opts.get("noderive") is None or d.opts.get("derive") is not None:
             if "Copy" in derives:
                 gen.append(f"impl{gp} Copy for {n}{ga} {{}}")
                 gen.append(f"impl{gp} Clone for {n}{ga} {{ #[verifier::external_body] fn clone(&self) -> (r: Self) ensures r == *self {{ unimplemented!() }} }}")
@@ -459,6 +463,9 @@ class Gen:
                 ens = f" ensures r == ({dspec})" if dspec else ""
                 body = ", ".join(f"{f}: Default::default()" for f in fields)
                 gen.append(f"impl Default for {n} {{ fn default() -> (r: Self){ens} {{ {n} {{ {body} }} }} }}")
+        if d.opts.get("display") is not None:
+            # the repository's `impl fmt::Display` (formatting only) is not extracted; an opaque stand-in keeps `.to_string()` typable
+            gen.append(f"impl{gp} core::fmt::Display for {n}{ga} {{ #[verifier::external_body] fn fmt(&self, f: &mut core::fmt::Formatter<'_>) -> core::fmt::Result {{ unimplemented!() }} }}")
         # thiserror #[from]
         if d.kind == "enum":
             for idx, a in attrs:
@@ -491,6 +498,8 @@ class Gen:
                 it = S.top("fn", d.name)
                 fid = d.name
             imp = None
+        if d.opts.get("id"):
+            fid = d.opts["id"]
         fp = rs.parse_fn(st, it)
         orig = it.text(src)
         key = f"{d.path}::{fid}"
@@ -549,15 +558,21 @@ class Gen:
         loops = rs.find_loops(st, fp.body_open + 1, fp.body_close)
         nclos = d.opts.get("closures")
         if nclos is not None and int(nclos) != len(closures):
-            raise AnchorLost(f"{fid}: expected {nclos} closures, found {len(closures)}")
+            # soft: the function's shape changed; contracts keyed by ordinal are attached as far as they go and the
+            # verifier decides (a misplaced clause can only fail, never wrongly succeed)
+            self.skipped_hints.append(f"{fid}: expected {nclos} closures, found {len(closures)}")
+            info.setdefault("skipped_hints", []).append(f"closure count {nclos} -> {len(closures)}")
         nloops = d.opts.get("loops")
         if nloops is not None and int(nloops) != len(loops):
-            raise AnchorLost(f"{fid}: expected {nloops} loops, found {len(loops)}")
+            self.skipped_hints.append(f"{fid}: expected {nloops} loops, found {len(loops)}")
+            info.setdefault("skipped_hints", []).append(f"loop count {nloops} -> {len(loops)}")
         clos_spec = {int(c.args[0]): c for c in cls if c.kind == "closure"}
         clos_types = {int(c.args[0]): c for c in cls if c.kind == "closure_types"}
-        for k, c in clos_spec.items():
+        for k in list(clos_spec):
             if k < 1 or k > len(closures):
-                raise AnchorLost(f"{fid}: closure {k} not found ({len(closures)} closures)")
+                self.skipped_hints.append(f"{fid}: closure {k} not found ({len(closures)} closures)")
+                info.setdefault("skipped_hints", []).append(f"closure {k} missing")
+                del clos_spec[k]
         inner_marks: List[Tuple[int, int, str]] = []   # (line offset start, end, label) filled later via sentinels
         for k, cl in enumerate(closures, 1):
             # E6 tuple-pattern params
@@ -654,6 +669,10 @@ class Gen:
                 for ln_ in c.text.strip().splitlines():
                     if not ln_.strip(): continue
                     pname, tname = [x.strip() for x in ln_.split(":")]
+                    bound_override = None
+                    if "=" in tname:
+                        # E16: the std trait bound is replaced by a shim trait of the same shape (e.g. AsRef<str> -> AsRefStr)
+                        tname, bound_override = [x.strip() for x in tname.split("=")]
                     k = fp.params_open + 1
                     found = False
                     while k < fp.params_close:
@@ -666,7 +685,7 @@ class Gen:
                                 e += 1
                             bound = src[st[k + 3].start:st[e - 1].end]
                             sp.replace(st[k + 2].start, st[e - 1].end, REP("E15", src[st[k + 2].start:st[e - 1].end], tname))
-                            adds.append(f"{tname}: {bound}")
+                            adds.append(f"{tname}: {bound_override or bound}")
                             found = True
                             break
                         k += 1
@@ -701,6 +720,56 @@ class Gen:
             if c.kind == "prefix":
                 txt = c.text
                 sp.insert(st[fp.body_open].end, ADD("E10", "\n" + txt))
+            if c.kind == "adapter":
+                # E11 (structured): `RECV.iter().any(F)` -> `it_any(&RECV, F)` etc. The receiver and the closure F are the
+                # real tokens; only the adapter call syntax changes. args: kind, ordinal
+                kind_, nth = c.args[0], int(c.args[1]) if len(c.args) > 1 else 1
+                pats = {
+                    "any": ([".", "iter", "(", ")", ".", "any", "("], [], "it_any(&", False),
+                    "map_sum": ([".", "iter", "(", ")", ".", "map", "("], [".", "sum", "(", ")"], "it_map_sum_u64(&", False),
+                    "try_map_collect": ([".", "iter", "(", ")", ".", "map", "("], [".", "collect", "(", ")"], "it_try_map(", False),
+                    "into_map_collect": ([".", "into_iter", "(", ")", ".", "map", "("], [".", "collect", "(", ")"], "it_into_map(", False),
+                }
+                if kind_ not in pats: raise SystemExit(f"{self.spec_path}:{c.line}: unknown adapter {kind_}")
+                head, tail, fn_open, _ = pats[kind_]
+                hits = []
+                i = fp.body_open + 1
+                while i < fp.body_close - len(head):
+                    if [t.text for t in st[i:i + len(head)]] == head:
+                        close = rs.match_close(st, i + len(head) - 1)
+                        if [t.text for t in st[close + 1:close + 1 + len(tail)]] == tail:
+                            hits.append((i, close))
+                    i += 1
+                if nth < 1 or nth > len(hits):
+                    raise AnchorLost(f"{fid}: adapter {kind_} #{nth}: {len(hits)} hits")
+                i, close = hits[nth - 1]
+                # receiver: walk back over a postfix chain
+                r0 = i - 1
+                while True:
+                    t = st[r0]
+                    if t.text in (")", "]"):
+                        # find matching opener
+                        depth = 0; k = r0
+                        while True:
+                            if st[k].text in rs.CLOSE: depth += 1
+                            elif st[k].text in rs.OPEN:
+                                depth -= 1
+                                if depth == 0: break
+                            k -= 1
+                        r0 = k - 1
+                        continue
+                    if t.kind == "ident" or t.text in (".", "::", "&", "*") or t.kind == "lifetime":
+                        if t.kind == "ident" and t.text in ("return", "let", "in", "if", "match", "else"): break
+                        r0 -= 1
+                        continue
+                    break
+                r0 += 1
+                recv_a = st[r0].start
+                sp.insert(recv_a, ADD("E11", fn_open))
+                sp.replace(st[i].start, st[i + len(head) - 1].end, REP("E11", src[st[i].start:st[i + len(head) - 1].end], ", "))
+                if tail:
+                    sp.replace(st[close + 1].start, st[close + len(tail)].end, REP("E11", src[st[close + 1].start:st[close + len(tail)].end], ""))
+                self.rewrites.append({"fn": fid, "rule": "E11", "adapter": kind_, "at": S.line_of(st[i].start)})
             if c.kind == "replace":
                 # listed call-syntax rewrites (E8 checked arithmetic, E9 dependency inlining, E11 std adapter -> shim fn, E12 eta)
                 rule, anchor, nth = c.args[0], c.args[1], int(c.args[2])
